@@ -28,11 +28,12 @@ type behaviour struct {
 
 // World is one server under observation plus the harness-side actors.
 type World struct {
-	R     *sched.Run
-	Srv   *dns.Server
-	Mode  string
-	Gated bool
-	sum   *hx.Summary
+	R      *sched.Run
+	Srv    *dns.Server
+	Mode   string
+	Gated  bool
+	UseLAS bool // start calls go through ListenAndServe (srv.Net / srv.Addr set by the caller)
+	sum    *hx.Summary
 
 	mu      sync.Mutex
 	nP, nH  int
@@ -268,6 +269,8 @@ func (w *World) Start(bad bool) int {
 					w.Srv.Net, w.Srv.Addr = "tcp-tls", "127.0.0.1:0"
 				}
 				err = w.Srv.ListenAndServe()
+			} else if w.UseLAS {
+				err = w.Srv.ListenAndServe()
 			} else {
 				err = w.Srv.ActivateAndServe()
 			}
@@ -335,6 +338,27 @@ func (w *World) Expire(h int) {
 		w.R.Emit(sched.Event{Ev: "ctx.expire", H: h})
 		c()
 	}
+}
+
+// SparePC puts a packet conn nobody serves into srv.PacketConn of a running stream server: the
+// field state a Server value has after an earlier udp run, or with a user-supplied PacketConn.
+// SpareListener is the converse for a value that serves its PacketConn.  ClearPC sets the field
+// back to nil.  The caller guarantees that no call is inside its critical section.
+func (w *World) SparePC() {
+	pc := w.R.NewPacketConn()
+	w.R.Emit(sched.Event{Ev: "h.sparepc"})
+	w.Srv.PacketConn = pc
+}
+
+func (w *World) ClearPC() {
+	w.R.Emit(sched.Event{Ev: "h.clearpc"})
+	w.Srv.PacketConn = nil
+}
+
+func (w *World) SpareListener() {
+	l := w.R.NewListener(1)
+	w.R.Emit(sched.Event{Ev: "h.sparelsn", L: 1})
+	w.Srv.Listener = l
 }
 
 // BreakConfig leaves the server without anything to serve on (nil listener / packet conn, or for
